@@ -247,6 +247,9 @@ impl ToBe for u8 {
     fn to_be_bytes_v(self) -> (r: [u8; 1]) ensures r@ == seq![self] { self.to_be_bytes() }
 }
 pub assume_specification<T>[ <T as core::convert::From<T>>::from ](t: T) -> (r: T) ensures r == t;
+/// `a == b` on byte slices (rule R8.slice_eq): element-wise equality
+#[verifier::external_body]
+pub fn slice_eq(a: &[u8], b: &[u8]) -> (r: bool) ensures r == (a@ == b@) { a == b }
 
 // ---------------------------------------------------------------------------------- digest / hmac / hkdf
 pub trait AsBytes { spec fn bytes(&self) -> Seq<u8>; }
@@ -445,6 +448,9 @@ pub mod voprf {
         proof fn lemma_elem_roundtrip(e: Self::Elem)
             requires e != Self::identity()
             ensures Self::de_elem(Self::ser_elem(e)) == Some(e);
+        /// scalar decoding is canonical for exact-length input (big-endian / little-endian integer below the group order, no aliases)
+        proof fn lemma_de_scalar_canonical(b: Seq<u8>)
+            ensures Self::de_scalar(b) is Some && b.len() == Self::ScalarLen::n() ==> Self::ser_scalar(Self::de_scalar(b)->0) == b;
         /// decoders only return valid values: non-zero scalars, non-identity elements
         proof fn lemma_decoded_valid(b: Seq<u8>)
             ensures
